@@ -29,6 +29,10 @@ def run(ctx):
                 "non-trivial = history with >= 2 calls; distinct = distinct case lines (hash)")
     ctx.replay(rep, cases, label="R/ArraySeq", timeout=ctx.pick(900, 5400))
     os.unlink(cases)
+    # V: recorded random executions (long arrays, all growth boundaries) validated against the same actions
+    rec = vlib.build_harness(lib, "c01_record", ["c01_record.cpp"])
+    files = ctx.record(rec, ctx.pick(8, 48), ctx.pick(6000, 40000), "V/ArraySeq")
+    ctx.validate_traces("Trace_ArraySeq", "Trace_ArraySeq", files, label="V/ArraySeq", timeout=ctx.pick(600, 3000))
     ctx.assumptions += [
         "exhaustive within the constants of spec/%s.cfg; beyond them only the recorded random executions apply" % cfg,
         "memory errors/leaks are observed by ASan/LSan on the replayed executions, not decided by the model",
@@ -38,6 +42,8 @@ def run(ctx):
 
 def replay(path):
     lib = vlib.build_lib("asan")
+    if os.path.basename(path).startswith("rec-") or path.endswith(".ndjson"):
+        return vlib.replay_recorded(path, lib, "c01_record", ["c01_record.cpp"], "Trace_ArraySeq", "Trace_ArraySeq")
     rep = vlib.build_harness(lib, "c01_replay", ["c01_replay.cpp"])
     r = subprocess.run([rep, "--single", path], env=vlib.run_env())
     return 1 if r.returncode == 1 else (0 if r.returncode == 0 else 2)
